@@ -42,6 +42,15 @@ else
   ( cd "$wt" && go test -vet=off -count=1 -timeout 25m ./... ) >"$log" 2>&1
 fi
 bad=$(grep -E "^--- FAIL" "$log" | grep -v -E "ExampleSpec_second|ExampleSpecValidator_Validate_url" || true)
+# TestJSONSchemaSuite starts its own HTTP server in a goroutine and races with it on a loaded machine ("connection
+# refused", fails within 0.00s): when it is the only failure, give that test two more tries on its own
+if [ -n "$bad" ] && [ -z "$(echo "$bad" | grep -v -E "TestJSONSchemaSuite")" ]; then
+  for try in 1 2; do
+    if ( cd "$wt" && unshare -rn sh -c 'ip link set lo up 2>/dev/null; go test -vet=off -count=1 -timeout 25m -run TestJSONSchemaSuite .' ) >"$log.retry" 2>&1; then
+      bad=""; break
+    fi
+  done
+fi
 if [ -n "$bad" ] || ! grep -q -E "^(ok|FAIL)\s+github.com/go-openapi/validate\s" "$log"; then echo "$NAME: REJECT existing tests fail with the change: $bad"; tail -5 "$log"; exit 1; fi
 dst=/verif/seeded/$NAME
 mkdir -p "$dst"
